@@ -181,7 +181,7 @@ async def wait_for_finished_nodes_async(
     return done, running, runnable_xns_ids
 
 
-async def to_thread_in_executor(
+def to_thread_in_executor(
     func: Callable[..., Any],
     executor: ThreadPoolExecutor,
     # /, # support for python3.7
@@ -190,19 +190,19 @@ async def to_thread_in_executor(
 ) -> "asyncio.Future[Any]":
     """A modified copy of asyncio.to_thread.
 
-    Asynchronously run function *func* in a separate thread.
+    Run function *func* in a separate thread of *executor*; the function is submitted right away.
 
     Any *args and **kwargs supplied for this function are directly passed
     to *func*. Also, the current :class:`contextvars.Context` is propagated,
     allowing context variables from the main thread to be accessed in the
     separate thread.
 
-    Return a coroutine that can be awaited to get the result of *func*.
+    Return a future that can be awaited to get the result of *func*.
     """
     loop = asyncio.get_running_loop()
     ctx = contextvars.copy_context()
     func_call = functools.partial(ctx.run, func, *args, **kwargs)
-    return await loop.run_in_executor(executor, func_call)
+    return loop.run_in_executor(executor, func_call)
 
 
 ################
@@ -355,8 +355,9 @@ async def async_execute(
             conc_running.add(exec_future_sync)
             conc_futures[xn.id] = exec_future_sync
         elif xn.resource == Resource.async_thread:
-            exec_future_async = asyncio.ensure_future(
-                to_thread_in_executor(xn.execute, executor, results=results, profiles=profiles)
+            # submitted right away (a task would only start at the next suspension of the scheduler)
+            exec_future_async = to_thread_in_executor(
+                xn.execute, executor, results=results, profiles=profiles
             )
             logger.debug("Submitted ExecNode {} to the ThreadPool in async mode", xn.id)
             async_running.add(exec_future_async)
